@@ -418,18 +418,27 @@ func (w *world) makeTx(o op, curNonce func(common.Address) uint64) (*types.Trans
 
 // makeEvidence builds an EvidenceDoubleSignV5 against validator key vk for the given round, signed with vk's BLS key.
 // The signer index is the validator's position in the look-back validator set of that round, as seen by node n.
-func (w *world) makeEvidence(n *chainkit.Node, vk int, round uint64, kind string) (staking.Evidence, error) {
+//
+// valid reports whether processDoubleSignV5 will resolve a signer for it (kind "ok" and the validator is in the look-back set).
+func (w *world) makeEvidence(n *chainkit.Node, vk int, round uint64, kind string) (ev staking.Evidence, valid bool, err error) {
+	ev, inSet, err := w.makeEvidence0(n, vk, round, kind)
+	return ev, err == nil && kind == "ok" && inSet, err
+}
+
+func (w *world) makeEvidence0(n *chainkit.Node, vk int, round uint64, kind string) (staking.Evidence, bool, error) {
 	if kind == "garbage" {
-		return staking.Evidence{Type: staking.EvidenceTypeDoubleSignV5, Data: []byte{0xc3, 0x01, 0x02, byte(vk)}}, nil
+		return staking.Evidence{Type: staking.EvidenceTypeDoubleSignV5, Data: []byte{0xc3, 0x01, 0x02, byte(vk), byte(round)}}, false, nil
 	}
 	if kind == "inactive" {
-		return staking.NewEvidence(staking.EvidenceInactive{Round: round, Validators: []common.Address{chainkit.Addr(chainkit.Key("val", vk))}}), nil
+		return staking.NewEvidence(staking.EvidenceInactive{Round: round, Validators: []common.Address{chainkit.Addr(chainkit.Key("val", vk))}}), false, nil
 	}
 	idx := uint32(0)
+	inSet := false
 	rd, err := n.BC.LookBackVldReaderForRound(round, false)
 	if err == nil {
 		if i, ok := rd.GetValidators().GetIndex(chainkit.Addr(chainkit.Key("val", vk))); ok {
 			idx = uint32(i)
+			inSet = true
 		} else {
 			idx = uint32(rd.GetValidators().Len()) + 3 // not in the look-back set: an index nobody has
 		}
@@ -460,7 +469,7 @@ func (w *world) makeEvidence(n *chainkit.Node, vk int, round uint64, kind string
 	case "one":
 		ev.Signs = []*staking.SignInfo{{Hash: h1, Sign: sign(h1, round)}}
 	default:
-		return staking.Evidence{}, fmt.Errorf("unknown evidence kind %q", kind)
+		return staking.Evidence{}, false, fmt.Errorf("unknown evidence kind %q", kind)
 	}
-	return staking.NewEvidence(ev), nil
+	return staking.NewEvidence(ev), inSet, nil
 }
